@@ -141,7 +141,10 @@ class Extractor:
         x = s_
         while x.get("k") in ("try", "semi"):
             x = x["e"]
-        return x.get("k") == "blockexpr" and "inl_id" in x and not any(y.get("k") in ("assign", "assignop") for y in walk(x))
+        # an inlined helper called for its checks, or a block statement (e.g. one pass of an unrolled loop over a literal array): the value is
+        # discarded and nothing is assigned, so the term built from the locals cannot change
+        return x.get("k") == "blockexpr" and ("inl_id" in x or x.get("unrolled_for") or any(s2.get("unrolled") for s2 in x["b"]["stmts"] if isinstance(s2, dict))) \
+            and not any(y.get("k") in ("assign", "assignop") for y in walk(x))
 
     def ev(self, n, env, depth=0):
         if depth > 30:
